@@ -20,12 +20,14 @@ def run(ck):
     # valid files are in the domain too
     for c, f in files:
         items.append((c.T, c.key, f, {"case": c, "orig": f, "valid": True}))
+    for T, key, f, cls in forged(r, 120 if big else 50):
+        items.append((T, key, f, {"forged": cls, "valid": True}))
     res = run_inputs(ck, exe, env, items, san_exe=san)
     dist = ck.cov.setdefault("case_classes", {})
     distinct, corr, last = set(), 0, None
     for x in res:
         meta = x["meta"]
-        cls = "garbage" if meta.get("garbage") else "valid" if meta.get("valid") else meta["mut"].cls
+        cls = meta["forged"] if meta.get("forged") else "garbage" if meta.get("garbage") else "valid" if meta.get("valid") else meta["mut"].cls
         if cls == "flip/cmode-byte/in-range":
             continue   # carries a valid tag but was not produced by encryption: outside the property's domain (see C05 / K1)
         ck.cov["evaluations"] += 1
@@ -63,6 +65,6 @@ def run(ck):
     if corr and not ck.violations:
         last["broken"] = "correspondence dec/ver model vs implementation on malformed input"
         ck.violation("correspondence model/implementation no longer checks on %d malformed inputs (e.g. result codes), no property violation found" % corr, last, found_input=False)
-    return finish_proof(ck, rule="malformed stream: empty, shorter than magic/header at every boundary, right magic with random rest, in-range and out-of-range mode bytes with >= 74 bytes, random garbage of many lengths; plus every mutation class of C05 on %d valid files (mode-byte-in-range excluded: outside the domain), plus the valid files; decrypt and verify, T in {1,2,4,16}; thorough tier repeats everything under ASan+UBSan. distinct = distinct (class, length, first 12 bytes)" % len(files),
+    return finish_proof(ck, rule="malformed stream: empty, shorter than magic/header at every boundary, right magic with random rest, in-range and out-of-range mode bytes with >= 74 bytes, random garbage of many lengths; plus every mutation class of C05 on %d valid files (mode-byte-in-range excluded: outside the domain), plus the valid files, plus authentic files built outside the program (arbitrary body incl. empty / ragged / any pad byte, right tag); decrypt and verify, T in {1,2,4,16}; thorough tier repeats everything under ASan+UBSan. distinct = distinct (class, length, first 12 bytes)" % len(files),
                         assumptions=["memory safety of the C++ is observed (sanitizers in the thorough tier), not proved: the model carries every index/size computation and maps undefined behaviour to Crash",
                                      "ASan's new-delete-type-mismatch report is switched off: Hashmaster/buffer64/Aesmode objects are deleted through base pointers without virtual destructors on EVERY operation (formally undefined, no access outside a buffer; noted in DESIGN Part C as an observation, not a finding of C11)", "leak detection off (hmac::getres leaks h1/h2 by design of its comma-delete)"])
